@@ -11,3 +11,6 @@ func rd() { runtime.RaceDisable() }
 func re() { runtime.RaceEnable() }
 
 const RaceBuild = true
+
+// RaceErrors is the number of data races the detector has reported so far.
+func RaceErrors() int { return runtime.RaceErrors() }
